@@ -92,6 +92,8 @@ class ChildIO:
         return os.path.dirname(p) == self.dir
 
     def announce(self, op, **kw):
+        if os.environ.get("VF_DEBUG"):
+            sys.stderr.write(f"[{os.getpid()}] announce {op} {kw}\n")
         self.w.write(json.dumps({"op": op, **kw}) + "\n")
         self.w.flush()
         line = self.r.readline()
@@ -113,8 +115,8 @@ class ChildIO:
             cio.announce("Stat", name=os.path.basename(os.fspath(path)))
             try:
                 st = cio.real_stat(path, *a, **k)
-            except FileNotFoundError:
-                cio.done(exists=False)
+            except BaseException as ex:
+                cio.done(exists=False, **({} if isinstance(ex, FileNotFoundError) else {"error": type(ex).__name__}))
                 raise
             cio.done(exists=True)
             return st
@@ -132,14 +134,18 @@ class ChildIO:
                 return cio.real_open(file, mode, *a, **k)
             if "w" in mode or "a" in mode or "x" in mode or "+" in mode:
                 cio.announce("OpenW", name=name)
-                real = cio.real_open(file, mode, *a, **k)
+                try:
+                    real = cio.real_open(file, mode, *a, **k)
+                except BaseException as ex:
+                    cio.done(error=type(ex).__name__)
+                    raise
                 cio.done()
                 return WriteProxy(cio, real, name, announced=True)
             cio.announce("OpenR", name=name)
             try:
                 real = cio.real_open(file, mode, *a, **k)
-            except FileNotFoundError:
-                cio.done(found=False)
+            except BaseException as ex:
+                cio.done(found=False, error=type(ex).__name__)
                 raise
             cio.done(found=True)
             return ReadProxy(cio, real, name)
@@ -148,7 +154,11 @@ class ChildIO:
             if isinstance(path, (str, bytes, os.PathLike)) and cio.inside(path) and flags & os.O_CREAT:
                 name = os.path.basename(os.fspath(path))
                 cio.announce("OpenW", name=name)
-                fd = cio.real_osopen(path, flags, *a, **k)
+                try:
+                    fd = cio.real_osopen(path, flags, *a, **k)
+                except BaseException as ex:
+                    cio.done(error=type(ex).__name__)
+                    raise
                 cio.fd_names[fd] = name
                 cio.done()
                 return fd
@@ -157,7 +167,11 @@ class ChildIO:
         def replace(src, dst, *a, **k):
             if cio.inside(dst):
                 cio.announce("Replace", src=os.path.basename(os.fspath(src)), dst=os.path.basename(os.fspath(dst)))
-                r = cio.real_replace(src, dst, *a, **k)
+                try:
+                    r = cio.real_replace(src, dst, *a, **k)
+                except BaseException as ex:
+                    cio.done(error=type(ex).__name__)
+                    raise
                 cio.done()
                 return r
             return cio.real_replace(src, dst, *a, **k)
@@ -165,7 +179,11 @@ class ChildIO:
         def rename(src, dst, *a, **k):
             if cio.inside(dst):
                 cio.announce("Replace", src=os.path.basename(os.fspath(src)), dst=os.path.basename(os.fspath(dst)))
-                r = cio.real_rename(src, dst, *a, **k)
+                try:
+                    r = cio.real_rename(src, dst, *a, **k)
+                except BaseException as ex:
+                    cio.done(error=type(ex).__name__)
+                    raise
                 cio.done()
                 return r
             return cio.real_rename(src, dst, *a, **k)
@@ -344,8 +362,19 @@ class Scheduler:
             events.append({"ev": ev, "p": p, **kw, "fs": self.snapshot(d, owner)})
 
         def read_msg(k):
-            line = k["r"].readline()
-            return json.loads(line) if line else None
+            import select
+
+            while b"\n" not in k["buf"]:
+                ready, _, _ = select.select([k["rfd"]], [], [], 120)
+                if not ready:
+                    raise RuntimeError("child did not respond within 120 s (protocol deadlock)")
+                chunk = os.read(k["rfd"], 65536)
+                if not chunk:
+                    return None
+                k["buf"] += chunk
+            line, _, rest = k["buf"].partition(b"\n")
+            k["buf"] = rest
+            return json.loads(line)
 
         def orphan(p):
             for fname, who in list(owner.items()):
@@ -359,7 +388,7 @@ class Scheduler:
             except ProcessLookupError:
                 pass
             os.waitpid(k["pid"], 0)
-            k["r"].close()
+            os.close(k["rfd"])
             k["w"].close()
 
         def pending(p):
@@ -397,7 +426,7 @@ class Scheduler:
                 k["w"].write(json.dumps({"partial": partial}) + "\n")
                 k["w"].flush()
                 os.waitpid(k["pid"], 0)
-                k["r"].close()
+                os.close(k["rfd"])
                 k["w"].close()
                 kids.pop(p)
                 pw_name = absname(msg, p)
@@ -413,6 +442,8 @@ class Scheduler:
                 reap(p)
                 return False
             info = {kk: vv for kk, vv in fin.items() if kk != "done"}
+            if "done" not in fin:
+                raise RuntimeError(f"protocol error: expected completion of {op}, got {fin}")
             if op == "Replace":
                 src = absname(msg, p, "src")
                 dst = absname(msg, p, "dst")
@@ -452,7 +483,7 @@ class Scheduler:
                             os._exit(0)
                     os.close(c2p_w)
                     os.close(p2c_r)
-                    kids[p] = {"pid": pid, "r": os.fdopen(c2p_r, "r"), "w": os.fdopen(p2c_w, "w"), "pending": None}
+                    kids[p] = {"pid": pid, "rfd": c2p_r, "buf": b"", "w": os.fdopen(p2c_w, "w"), "pending": None}
                     log("Call", p, e=e)
                 elif kind == "step":
                     if p in kids:
